@@ -227,4 +227,39 @@ theorem maxcv_true_inequalities (bf : Bool) (bs : List (Lim Rat × Lim Rat)) (x 
   rw [maxcv_assembled_true bf bs x _ _ hbox, maxInit0_clip, maxInit0_clip,
     linear_violation_true R rows z h1 h4 h5 hrows]
 
+/-- the entry `|r|` the code records for an equality row is the larger of the two one-sided excesses `r`, `−r`
+of the user's statement `lb = ub` -/
+theorem maxInit0_abs (l : List Rat) :
+    maxInit0 (l.map fun r => |r|) = maxInit0 (l.flatMap fun r => [r, -r]) := by
+  obtain ⟨a0, a1, a2⟩ := maxInit0_spec (l.map fun r => |r|)
+  obtain ⟨c0, c1, c2⟩ := maxInit0_spec (l.flatMap fun r => [r, -r])
+  apply le_antisymm
+  · rcases a2 with h | h
+    · rw [h]; exact c0
+    · obtain ⟨r, hr, e⟩ := List.mem_map.mp h
+      rw [← e]
+      rcases abs_choice r with h' | h'
+      · rw [h']; exact c1 _ (List.mem_flatMap.mpr ⟨r, hr, by simp⟩)
+      · rw [h']; exact c1 _ (List.mem_flatMap.mpr ⟨r, hr, by simp⟩)
+  · rcases c2 with h | h
+    · rw [h]; exact a0
+    · obtain ⟨r, hr, e⟩ := List.mem_flatMap.mp h
+      have hm : |r| ≤ maxInit0 (l.map fun r => |r|) := a1 _ (List.mem_map.mpr ⟨r, hr, rfl⟩)
+      simp only [List.mem_cons, List.mem_nil_iff, or_false] at e
+      rcases e with e | e
+      · rw [e]; exact le_trans (le_abs_self r) hm
+      · rw [e]; exact le_trans (neg_le_abs r) hm
+
+/-- **C02, with equalities.**  The linear (or nonlinear) block of the code — clipped inequality residuals followed by the
+absolute equality residuals — contributes the largest one-sided excess of the statement as the user made it. -/
+theorem maxcv_assembled_true_eq (bf : Bool) (bs : List (Lim Rat × Lim Rat)) (x ineq eq n : List Rat)
+    (hbox : bf = true → InBox bs x) :
+    assembleMaxcv bf (boundViolation bs x) ((ineq.map fun r => max r 0) ++ eq.map fun r => |r|) n =
+      max (maxInit0 (boundExcesses bs x))
+        (max (max (maxInit0 ineq) (maxInit0 (eq.flatMap fun r => [r, -r]))) (maxInit0 n)) := by
+  rw [maxcv_assembled_true bf bs x _ _ hbox, maxInit0_append, maxInit0_clip, maxInit0_abs]
+
+example : assembleMaxcv true (boundViolation [] []) (([-1] : List Rat).map (fun r => max r 0) ++ ([-2] : List Rat).map fun r => |r|) [] = 2 := by
+  decide +kernel
+
 end Cobyqa
